@@ -3,7 +3,8 @@
 // (C05) iff every read it issues carries the view's own instant; plain keyspace reads see the latest state
 // (SeqNo::MAX). What lsm-tree answers for (key, instant) is its MVCC contract (assumed).
 pub struct ReadEv { pub ks: u64, pub instant: u64, pub scan: bool, pub local: bool }
-pub struct RWorld { pub reads: Seq<ReadEv> }
+pub struct BItemV { pub ks: u64, pub key: Seq<u8>, pub value: Seq<u8>, pub vt: ValueType }
+pub struct RWorld { pub reads: Seq<ReadEv>, pub committed: Seq<Seq<BItemV>> }   // read log; batches handed to WriteBatch::commit
 pub struct AnyTreeR { pub id: Ghost<u64> }
 pub struct IterGuardImpl { pub dummy: u8 }
 pub struct Guard(pub IterGuardImpl);
@@ -13,8 +14,9 @@ impl InnerIter {
     #[verifier::external_body] pub fn next(&mut self) -> (r: Option<IterGuardImpl>) ensures final(self).at == old(self).at, final(self).ks == old(self).ks { unimplemented!() }
     #[verifier::external_body] pub fn next_back(&mut self) -> (r: Option<IterGuardImpl>) ensures final(self).at == old(self).at, final(self).ks == old(self).ks { unimplemented!() }
 }
-pub struct MemtableArc { pub id: Ghost<int> }     // Arc<lsm_tree::Memtable>: a transaction's local write set for one keyspace
-impl Clone for MemtableArc { #[verifier::external_body] fn clone(&self) -> (r: MemtableArc) ensures r.id == self.id { unimplemented!() } }
+pub struct MemtableArc { pub id: Ghost<int>, pub items: Ghost<Seq<IV>> }     // Arc<lsm_tree::Memtable>: a transaction's local write set for one keyspace (identity, versions in iteration order)
+pub struct IV { pub key: Seq<u8>, pub value: Seq<u8>, pub vt: ValueType, pub seqno: u64 }   // one version as Memtable::iter yields it
+impl Clone for MemtableArc { #[verifier::external_body] fn clone(&self) -> (r: MemtableArc) ensures r == *self { unimplemented!() } }
 pub open spec fn local_of(m: Option<(MemtableArc, u64)>) -> Option<u64> { match m { Some(p) => Some(p.1), None => None } }
 pub open spec fn point_read(o: RWorld, n: RWorld, ks: u64, instant: u64) -> bool {
     n.reads == o.reads.push(ReadEv { ks, instant, scan: false, local: false })
